@@ -19,6 +19,12 @@ BOUNDED = {
           'substring / normalize-space / translate / string-length through the real Exec on every string up to N characters over an alphabet with ASCII, XML and non-XML white space, 2-, 3- and 4-byte and combining characters, and every position/length from a grid with fractions, negatives, NaN and infinities, compared with an independent character-level oracle; results checked for UTF-8 validity')],
  'C08': [('bounded/parse', ['-n', '2', '-sample', '1500'], ['-n', '3', '-sample', '6000'],
           'the generated lexer/GLL parser behind BuildExpr: (1) every operator tree up to depth N (sampled from depth 2) over 23 leaves incl. names spelling axes/node types, names with - . digits, paths, calls, variables, rendered with minimal and redundant parentheses and three white-space layouts, must evaluate through BuildExpr+Exec to the value an independent evaluator computes on the tree (precedence, associativity, * / operator-name disambiguation); (2) BuildExpr must accept exactly the strings an independent recursive-descent recogniser of XPath 1.0 (plus the function-step extension) accepts, over all renderings and their single-token deletions, duplications and swaps, and never panic')],
+ 'C09': [('bounded/xml', ['-n', '3'], ['-n', '4'],
+          'the document-to-tree mapping of ReadXml: abstract documents (namespace declarations incl. default, override, undeclaration; prefixed and unprefixed names; attributes incl. xml:lang; text, CDATA, references, comments, processing instructions; prolog/epilog variants; three 8-bit encodings) serialised, read with the real ReadXml and compared node by node with the XPath data model computed from the abstract document; 15 malformed inputs must be rejected')],
+ 'C16': [('bounded/json', ['-n', '2'], ['-n', '3'],
+          'the JSON-to-tree mapping of ReadJson: enumerated JSON values (nesting, empty containers, duplicate/empty/unusual keys, scalars, several top-level values) compared with the documented #obj/#arr tree; every proper prefix of short renderings and 23 malformed texts must be rejected')],
+ 'C17': [('bounded/html', ['-n', '3'], ['-n', '4'],
+          'the HTML-to-tree mapping of ReadHtml: documents assembled from 25 markup fragments after a doctype, compared node by node with the golang.org/x/net/html parse tree (local names, attributes minus xmlns with prefixes stripped, text, comments, no namespaces), incl. a 300-deep and a 2000-wide document')],
  'C10': [('bounded/store', ['-n', '7'], ['-n', '8'],
           'event loop of store.createInMemory: every Parser-contract-conforming event stream up to N events through the real store, compared with an independently built tree (nesting, positions, parent/list consistency, owned namespace nodes), plus one flat stream of 10^6 elements')],
 }
